@@ -300,9 +300,12 @@ func (parser *Parser) getIncludes(srcFile *SourceFile, includes []*Include, incP
 					loc:        inc.Node.Loc,
 				})
 			} else if iSrcFile := processedIncludes[absPath]; iSrcFile != nil {
-				iSrcFile.IncludedFrom = append(iSrcFile.IncludedFrom, &inc.Node.Loc)
 				if err := srcFile.checkIncludes(absPath, &inc.Node.Loc); err != nil {
+					// Don't record the back edge: the chain of
+					// includers must stay acyclic to be printable.
 					errs = append(errs, err)
+				} else {
+					iSrcFile.IncludedFrom = append(iSrcFile.IncludedFrom, &inc.Node.Loc)
 				}
 			} else {
 				iSrcFile = &SourceFile{
